@@ -910,4 +910,8 @@ class SchedulingSolver(BaseModelWithJson):
         if not self._initialized:
             self.initialize()
         with open(smt_filename, "w", encoding="utf-8") as outfile:
-            outfile.write(self._solver.to_smt2())
+            if hasattr(self._solver, "to_smt2"):
+                outfile.write(self._solver.to_smt2())
+            else:
+                # z3.Optimize has no to_smt2 method, its sexpr() is the SMT-LIB2 text
+                outfile.write(self._solver.sexpr())
